@@ -36,8 +36,8 @@ func init() {
 		ID:    "C20",
 		Level: "exploration",
 		Rule: "seeded option combinations for middleware.Spec / Redoc / RapiDoc / SwaggerUI / SwaggerUIOAuth2Callback (option structs filled directly: base path empty, '/', rooted, with trailing or doubled slashes, dot segments, a space, and without leading slash; UI path; spec path and document name; title, spec URL, asset URLs (SwaggerUI: bundle, preset, styles, both favicons) and the SwaggerUI callback URL carrying HTML/JS metacharacter markers; default or custom template; next recording or nil) and for Context.APIHandler / APIHandlerSwaggerUI / APIHandlerRapiDoc (generated description with base path, info title and operations placed on extensions/prefixes/siblings of the document paths - GET on static paths, other methods, and templates with a path parameter below or beside a document path; UIOption funcs; spec URL absolute path or absolute URL with directories, escapes, query, fragment, dot segments); " +
-			"requests: the document path exactly, with trailing slash, doubled slashes, dot segments (equal and different after cleaning), percent-escaped letters and slashes, prefixes, extensions, another letter case, unrelated paths; 9 methods; headers and bodies (JSON, and application/x-www-form-urlencoded ones that parsing the request would consume). " +
-			"oracle: document path = path.Join('/', base, path[, document]); interception iff path.Clean(URL.Path) equals it; spec bytes (compared with a copy taken before the library saw the document) and media type; page scanned for markers verbatim and for marker cores (one of the value's own quotes or '<' standing raw before its alert(N) payload, whatever the spelling of what lies between), for the title, and - stand-alone - for the spec URL unescaped for the place where it stands (HTML attribute or JS string; equal up to percent-encoding); next must find an empty response header set, see the same method/URL/header/body/ContentLength and no parsed form, exactly once, and its answer must come back with exactly the header set it wrote; page's spec reference extracted (attribute or JS string, unescaped like a browser), resolved against the page URL and fetched from the same handler. " +
+			"requests: the document path exactly, with trailing slash, doubled slashes, dot segments (equal and different after cleaning), percent-escaped letters and slashes, prefixes, extensions, another letter case, unrelated paths; 9 methods; headers and bodies (JSON, and application/x-www-form-urlencoded ones that parsing the request would consume); one request in 4 carries Range, If-Modified-Since (a date in 2099), If-None-Match: *, Accept-Encoding: gzip, or all of them plus If-Range, and a first answer that carries ETag / Last-Modified is asked for again with those validators: the document path must answer 200 with the exact bytes all the same; titles and spec URLs with entity-like text (R&amp;D &lt;b&gt;, a&#39;b); one spec document in 60 (one API description in 20, one title in 150) exceeds 70 KiB. " +
+			"oracle: document path = path.Join('/', base, path[, document]); interception iff path.Clean(URL.Path) equals it; spec bytes (compared with a copy taken before the library saw the document) and media type; page scanned for markers verbatim and for marker cores (one of the value's own quotes or '<' standing raw before its alert(N) payload, whatever the spelling of what lies between), for the title, every later answer at the document path of a stand-alone UI middleware being byte for byte the first page, and - stand-alone - for the spec URL unescaped for the place where it stands (HTML attribute or JS string; equal up to percent-encoding); next must find an empty response header set, see the same method/URL/header/body/ContentLength and no parsed form, exactly once, and its answer must come back with exactly the header set it wrote; page's spec reference extracted (attribute or JS string, unescaped like a browser), resolved against the page URL and fetched from the same handler. " +
 			"non-trivial = every judged request and page check; distinct by (middleware, option shape, request-path relation, method class, next present)",
 		Assumptions: []string{
 			"defaults are the documented ones: base path '/', UI path 'docs', document 'swagger.json', spec URL '/swagger.json', title 'API Documentation' (API handlers: the description's title), UI base path of the API handlers = the API base path, OAuth2 callback = <base>/<path>/oauth2-callback",
@@ -67,6 +67,54 @@ type Rq struct {
 	Header bool   `json:"header,omitempty"`
 	Form   bool   `json:"form,omitempty"` // Body is sent as application/x-www-form-urlencoded
 	Rel    string `json:"relation"`       // how the generator derived it (not used by the oracle)
+	// Cond names the conditional / range / encoding request headers in Headers (range, if-modified-since,
+	// if-none-match, accept-encoding, all, validators-of-first-answer); the statement knows none of
+	// them: the document path is answered 200 with the exact bytes whatever the request carries
+	Cond    string            `json:"conditional,omitempty"`
+	Headers map[string]string `json:"headers,omitempty"`
+}
+
+// condHeaders are the header sets behind Rq.Cond. The date lies after every possible modification time,
+// so that the outcome never depends on the clock.
+var condHeaders = map[string]map[string]string{
+	"range":             {"Range": "bytes=0-3"},
+	"if-modified-since": {"If-Modified-Since": "Thu, 01 Jan 2099 00:00:00 GMT"},
+	"if-none-match":     {"If-None-Match": "*"},
+	"accept-encoding":   {"Accept-Encoding": "gzip"},
+	"all": {"Range": "bytes=2-", "If-Modified-Since": "Thu, 01 Jan 2099 00:00:00 GMT", "If-None-Match": "*",
+		"Accept-Encoding": "gzip, deflate, br", "If-Range": "\"x\""},
+}
+var condKinds = []string{"range", "if-modified-since", "if-none-match", "accept-encoding", "all"}
+
+// condSuffix narrows a signature when the answer is one that only a conditional, range or encoding
+// request can get.
+func condSuffix(rq *Rq, a *answer) string {
+	if rq.Cond == "" {
+		return ""
+	}
+	switch a.status {
+	case http.StatusNotModified, http.StatusPartialContent, http.StatusPreconditionFailed, http.StatusRequestedRangeNotSatisfiable:
+		return "/conditional-request-" + rq.Cond
+	}
+	if a.hdr.Get("Content-Encoding") != "" {
+		return "/conditional-request-" + rq.Cond
+	}
+	return ""
+}
+
+// validatorsRq: the request repeated with the validators the first answer carried (ETag, Last-Modified).
+func validatorsRq(target string, a *answer) *Rq {
+	h := map[string]string{}
+	if v := a.hdr.Get("Etag"); v != "" {
+		h["If-None-Match"] = v
+	}
+	if v := a.hdr.Get("Last-Modified"); v != "" {
+		h["If-Modified-Since"] = v
+	}
+	if len(h) == 0 {
+		return nil
+	}
+	return &Rq{Method: "GET", Target: target, Rel: "exact", Cond: "validators-of-first-answer", Headers: h}
 }
 
 // Op is an API operation declared with another method than GET and/or with path parameters.
@@ -102,6 +150,9 @@ type Case struct {
 	InfoTitle   string   `json:"info_title,omitempty"`
 	Templates   []string `json:"operation_templates,omitempty"` // GET operations on static paths
 	Ops         []Op     `json:"operations,omitempty"`          // further operations: other methods, path parameters
+
+	// Pad: the description carries an info.description of that many bytes (a document beyond 64 KiB)
+	Pad int `json:"description_padding,omitempty"`
 
 	Requests []Rq `json:"requests"`
 }
@@ -650,6 +701,13 @@ func renderAPI(c *Case) []byte {
 		"info":     map[string]interface{}{"title": c.InfoTitle, "version": "1"},
 		"produces": []string{"application/json"},
 	}
+	if c.Pad > 0 {
+		var sb strings.Builder
+		for i := 0; sb.Len() < c.Pad; i++ {
+			fmt.Fprintf(&sb, "%06d words of description. ", i)
+		}
+		doc["info"].(map[string]interface{})["description"] = sb.String()
+	}
 	if c.APIBase != "" {
 		doc["basePath"] = c.APIBase
 	}
@@ -767,6 +825,9 @@ func send(b *built, rq *Rq) (a answer, ok bool) {
 		req.Header.Set("X-Probe", "kept")
 		req.Header.Add("Accept", "text/html")
 		req.Header.Add("Accept", "application/json;q=0.5")
+	}
+	for k, v := range rq.Headers {
+		req.Header.Set(k, v)
 	}
 	if b.next != nil {
 		*b.next = nextRec{sentPtr: req}
@@ -927,6 +988,8 @@ func runCase(m *mon.M, c *Case) {
 	if rootless(c.BasePath) {
 		feature = "base-path-without-leading-slash"
 	}
+	requests := c.Requests
+	var firstPage []byte // the page as first served (nil: the first GET did not yield one)
 	// page-level check: fetch the document path itself
 	{
 		m.Eval(1)
@@ -938,10 +1001,20 @@ func runCase(m *mon.M, c *Case) {
 		} else if c.MW != "spec" && a.status == 200 && a.ctype == "text/html" && (b.next == nil || b.next.calls == 0) {
 			checkPage(m, c, a.body, one)
 			m.Class("page-checked/" + c.MW)
+			firstPage = a.body // the recorder's own buffer: nothing writes to it any more
+		}
+		if a.panicV == nil && a.status == 200 {
+			if vr := validatorsRq((&url.URL{Path: doc}).EscapedPath(), &a); vr != nil {
+				m.Class("first-answer-carries-validators")
+				requests = append(append([]Rq{}, requests...), *vr)
+			}
 		}
 	}
-	for i := range c.Requests {
-		rq := &c.Requests[i]
+	for i := range requests {
+		rq := &requests[i]
+		if rq.Cond != "" {
+			m.Class("request:conditional/" + rq.Cond)
+		}
 		a, ok := send(b, rq)
 		if !ok {
 			m.Class("harness:request-not-constructible")
@@ -964,12 +1037,12 @@ func runCase(m *mon.M, c *Case) {
 		if path.Clean(reqPath) == doc {
 			m.Class("expect:document/" + rel)
 			if nextCalls > 0 || a.status != 200 {
-				m.Violate("document-path-not-served/"+feature, fmt.Sprintf("%s was not answered by the middleware (status %d, next called %d times)", what, a.status, nextCalls), one)
+				m.Violate("document-path-not-served/"+feature+condSuffix(rq, &a), fmt.Sprintf("%s%s was not answered by the middleware with the document (status %d, next called %d times)", what, condText(rq), a.status, nextCalls), one)
 				continue
 			}
 			if c.MW == "spec" {
 				if !bytes.Equal(a.body, b.spec) {
-					m.Violate("document-wrong-bytes/spec", fmt.Sprintf("%s -> body %s, spec bytes %s", what, clipB(a.body), clipB(b.spec)), one)
+					m.Violate("document-wrong-bytes/spec"+condSuffix(rq, &a), fmt.Sprintf("%s%s -> body %s (Content-Encoding %q), spec bytes %s", what, condText(rq), clipB(a.body), a.hdr.Get("Content-Encoding"), clipB(b.spec)), one)
 				} else if a.ctype != "application/json" {
 					m.Violate("document-wrong-content-type/spec", fmt.Sprintf("%s -> Content-Type %q", what, a.hdr.Get("Content-Type")), one)
 				}
@@ -978,6 +1051,12 @@ func runCase(m *mon.M, c *Case) {
 					m.Violate("document-wrong-content-type/"+mwName(c), fmt.Sprintf("%s -> Content-Type %q", what, a.hdr.Get("Content-Type")), one)
 				} else if len(a.body) == 0 {
 					m.Violate("document-empty/"+mwName(c), what+" -> empty page", one)
+				} else if firstPage != nil {
+					// "the HTML page": one page per configuration, whatever the request at the document path looks like
+					m.Class("page-compared-with-first-answer/" + rel)
+					if !bytes.Equal(a.body, firstPage) {
+						m.Violate("document-differs-from-first-page/"+mwName(c)+condSuffix(rq, &a), fmt.Sprintf("%s%s -> a page of %d bytes that differs (at offset %d) from the page of %d bytes the first GET of %s got: %s", what, condText(rq), len(a.body), firstDiff(a.body, firstPage), len(firstPage), doc, clipB(a.body)), one)
+					}
 				}
 			}
 			continue
@@ -1058,6 +1137,21 @@ func runCase(m *mon.M, c *Case) {
 	}
 }
 
+func condText(rq *Rq) string {
+	if len(rq.Headers) == 0 {
+		return ""
+	}
+	return fmt.Sprintf(" with request headers %v", rq.Headers)
+}
+
+func firstDiff(a, b []byte) int {
+	i := 0
+	for i < len(a) && i < len(b) && a[i] == b[i] {
+		i++
+	}
+	return i
+}
+
 func minimal(c *Case, rq *Rq) *Case {
 	one := *c
 	one.Requests = nil
@@ -1135,6 +1229,7 @@ func runAPICase(m *mon.M, c *Case) {
 
 	// the spec location the page references
 	specDoc := "" // cleaned path at which the spec is expected; "" = not determined
+	var specValidators *Rq
 	sshape := specURLShape(c.SetSpecURLValue())
 	judged := !strings.Contains(sshape, "relative") || strings.Contains(sshape, "scheme-relative")
 	if strings.Contains(sshape, "unparsable") {
@@ -1174,14 +1269,27 @@ func runAPICase(m *mon.M, c *Case) {
 				m.Class("spec-reference-followed/" + sshape)
 				// the spec is served at the location the page references, whether the option named a document or not
 				specDoc = path.Clean(abs.Path)
+				specValidators = validatorsRq(target, &sa)
 			}
 		}
 	} else {
 		m.Class("spec-reference-not-judged/" + sshape)
 	}
 
-	for i := range c.Requests {
-		rq := &c.Requests[i]
+	requests := c.Requests
+	if vr := validatorsRq(pageURL.EscapedPath(), &a); vr != nil {
+		m.Class("first-answer-carries-validators")
+		requests = append(append([]Rq{}, requests...), *vr)
+	}
+	if specValidators != nil {
+		m.Class("first-answer-carries-validators")
+		requests = append(append([]Rq{}, requests...), *specValidators)
+	}
+	for i := range requests {
+		rq := &requests[i]
+		if rq.Cond != "" {
+			m.Class("request:conditional/" + rq.Cond)
+		}
 		ra, ok := send(b, rq)
 		if !ok {
 			m.Class("harness:request-not-constructible")
@@ -1207,12 +1315,12 @@ func runAPICase(m *mon.M, c *Case) {
 		case cl == ui:
 			m.Class("expect:document/" + rel)
 			if !isPage {
-				m.Violate("document-path-not-served/api-handler-ui", fmt.Sprintf("%s -> %d %q %s instead of the UI page", what, ra.status, ra.ctype, clipB(ra.body)), one)
+				m.Violate("document-path-not-served/api-handler-ui"+condSuffix(rq, &ra), fmt.Sprintf("%s%s -> %d %q %s instead of the UI page", what, condText(rq), ra.status, ra.ctype, clipB(ra.body)), one)
 			}
 		case specDoc != "" && cl == specDoc:
 			m.Class("expect:document/" + rel)
 			if !isSpec || ra.ctype != "application/json" {
-				m.Violate("document-path-not-served/api-handler-spec", fmt.Sprintf("%s -> %d %q %s instead of the spec document", what, ra.status, ra.ctype, clipB(ra.body)), one)
+				m.Violate("document-path-not-served/api-handler-spec"+condSuffix(rq, &ra), fmt.Sprintf("%s%s -> %d %q %s instead of the spec document", what, condText(rq), ra.status, ra.ctype, clipB(ra.body)), one)
 			}
 		default:
 			if specDoc == "" {
@@ -1301,14 +1409,17 @@ var markerPool = []string{
 	`x' onmouseover='alert(%d)' <b>`,
 }
 
-var titlePool = []string{"", "My API", "Pets & Friends", "A \"quoted\" title", "it's"}
+var titlePool = []string{"", "My API", "Pets & Friends", "A \"quoted\" title", "it's", "R&amp;D &lt;b&gt;", "a&#39;b &quot;c&quot;"}
 var assetPool = []string{"", "https://cdn.example/lib.js", "/assets/lib.js?v=1&w=2"}
-var specURLStandalone = []string{"", "/swagger.json", "/api/spec.json", "https://example.test/a/spec.json", "spec.json", "/a b/s.json?x=1&y=2"}
+var specURLStandalone = []string{"", "/swagger.json", "/api/spec.json", "https://example.test/a/spec.json", "spec.json", "/a b/s.json?x=1&y=2",
+	"/R&amp;D/s.json?a=1&amp;b=2", "/s.json?t=a&#39;b&lt;"}
 
 var specURLAPI = []string{
 	"/swagger.json", "/spec.json", "/api/v1/spec.json", "/a/b/c.yaml", "/dir.d/s.json", "/docs/swagger.json", "/a b/s.json", "/a%20b/s.json",
 	"/s.json?version=1&x=y", "/s.json#top", "https://example.test/x/s.json", "http://other.example:8080/s.json", "//cdn.example/y/s.json",
 	"/x/../s.json", "/x//s.json", "/x/./s.json", "https://example.test/deep/er/path/openapi.json?a=b", "/sp%65c.json", "/api/swagger.json", "/a%2Fb/s.json",
+	// entity-like text: the page must carry it escaped once more, or the browser asks for another location
+	"/R&amp;D/s.json", "/a&#47;b/s&lt;.json?x=1&amp;y=2",
 	// without document name
 	"/specs/", "/", "https://example.test", "https://example.test/specs/",
 	// relative (not judged)
@@ -1372,6 +1483,10 @@ func genTargets(r *rand.Rand, doc string, n int) []Rq {
 		}
 		if r.Intn(6) == 0 {
 			rq.Target += "?q=" + strconv.Itoa(r.Intn(100))
+		}
+		if r.Intn(4) == 0 {
+			rq.Cond = pick(r, condKinds)
+			rq.Headers = condHeaders[rq.Cond]
 		}
 		out = append(out, rq)
 	}
@@ -1445,9 +1560,16 @@ func genStandalone(r *rand.Rand) *Case {
 		default:
 			c.SpecBytes = mon.Q(`{"swagger":"2.0"}`)
 		}
+		if r.Intn(60) == 0 {
+			// larger than any buffer a copy could go through (32 KiB, 64 KiB)
+			c.SpecBytes = mon.Q(bigDocument(r, 70*1024+r.Intn(3)))
+		}
 	} else {
 		c.Path = pick(r, uiPathPool)
 		c.Title = maybeMarker(r, titlePool, 40)
+		if r.Intn(150) == 0 {
+			c.Title = strings.Repeat("A long title & more. ", 3400) // a page of more than 70 KiB
+		}
 		c.SpecURL = maybeMarker(r, specURLStandalone, 25)
 		c.AssetURL = maybeMarker(r, assetPool, 20)
 		c.Custom = r.Intn(5) == 0
@@ -1471,8 +1593,22 @@ func genStandalone(r *rand.Rand) *Case {
 	return c
 }
 
+// bigDocument is an n-byte document whose every 4 KiB block differs from the others.
+func bigDocument(r *rand.Rand, n int) []byte {
+	var sb bytes.Buffer
+	sb.WriteString(`{"swagger":"2.0","x":"`)
+	for i := 0; sb.Len() < n-2; i++ {
+		fmt.Fprintf(&sb, "%06d-%04x ", i, r.Intn(65536))
+	}
+	b := sb.Bytes()[:n-2]
+	return append(b, '"', '}')
+}
+
 func genAPI(r *rand.Rand) *Case {
 	c := &Case{MW: pick(r, []string{"api-redoc", "api-swaggerui", "api-rapidoc"})}
+	if r.Intn(20) == 0 {
+		c.Pad = 70 * 1024
+	}
 	c.APIBase = pick(r, apiBasePool)
 	c.InfoTitle = maybeMarker(r, titlePool[1:], 30)
 	if r.Intn(3) == 0 {
@@ -1511,7 +1647,7 @@ func genAPI(r *rand.Rand) *Case {
 	tset := map[string]bool{"/items": true}
 	bp := strings.TrimSuffix(c.APIBase, "/")
 	under := func(full string) {
-		if full == "" || strings.ContainsAny(full, " %{}?#") || strings.HasSuffix(full, "/") || strings.Contains(full, "//") || strings.Contains(full, "/.") {
+		if full == "" || strings.ContainsAny(full, " %{}?#&;") || strings.HasSuffix(full, "/") || strings.Contains(full, "//") || strings.Contains(full, "/.") {
 			return
 		}
 		if bp != "" && !strings.HasPrefix(full, bp+"/") {
@@ -1559,7 +1695,7 @@ func genAPI(r *rand.Rand) *Case {
 	// operations with other methods and with a path parameter, next to the document paths
 	opset := map[string]bool{}
 	underOp := func(method, full string) {
-		if full == "" || strings.ContainsAny(full, " %?#") || strings.HasSuffix(full, "/") || strings.Contains(full, "//") || strings.Contains(full, "/.") {
+		if full == "" || strings.ContainsAny(full, " %?#&;") || strings.HasSuffix(full, "/") || strings.Contains(full, "//") || strings.Contains(full, "/.") {
 			return
 		}
 		if bp != "" && !strings.HasPrefix(full, bp+"/") {
